@@ -346,7 +346,7 @@ func newWorld(rt routeCfg, timeoutS int64) (*world, string) {
 				o.HostHeaderRewrite = "rewritten.example.com"
 			}
 			if rt.ReqHeaders {
-				o.RequestHeaders.Set = map[string]string{"X-From-Frp": "configured-value", "X-Resp-Extra": "overridden"}
+				o.RequestHeaders.Set = map[string]string{"X-From-Frp": "configured-value", "x-resp-extra": "overridden"} // the second key is deliberately not in canonical case
 			}
 			b.Plugin.ClientPluginOptions = o
 		case "http2https":
@@ -356,7 +356,7 @@ func newWorld(rt routeCfg, timeoutS int64) (*world, string) {
 				o.HostHeaderRewrite = "rewritten.example.com"
 			}
 			if rt.ReqHeaders {
-				o.RequestHeaders.Set = map[string]string{"X-From-Frp": "configured-value", "X-Resp-Extra": "overridden"}
+				o.RequestHeaders.Set = map[string]string{"X-From-Frp": "configured-value", "x-resp-extra": "overridden"} // the second key is deliberately not in canonical case
 			}
 			b.Plugin.ClientPluginOptions = o
 		case "https2http":
@@ -366,7 +366,7 @@ func newWorld(rt routeCfg, timeoutS int64) (*world, string) {
 				o.HostHeaderRewrite = "rewritten.example.com"
 			}
 			if rt.ReqHeaders {
-				o.RequestHeaders.Set = map[string]string{"X-From-Frp": "configured-value", "X-Resp-Extra": "overridden"}
+				o.RequestHeaders.Set = map[string]string{"X-From-Frp": "configured-value", "x-resp-extra": "overridden"} // the second key is deliberately not in canonical case
 			}
 			b.Plugin.ClientPluginOptions = o
 		case "https2https":
@@ -376,7 +376,7 @@ func newWorld(rt routeCfg, timeoutS int64) (*world, string) {
 				o.HostHeaderRewrite = "rewritten.example.com"
 			}
 			if rt.ReqHeaders {
-				o.RequestHeaders.Set = map[string]string{"X-From-Frp": "configured-value", "X-Resp-Extra": "overridden"}
+				o.RequestHeaders.Set = map[string]string{"X-From-Frp": "configured-value", "x-resp-extra": "overridden"} // the second key is deliberately not in canonical case
 			}
 			b.Plugin.ClientPluginOptions = o
 		}
@@ -397,7 +397,7 @@ func newWorld(rt routeCfg, timeoutS int64) (*world, string) {
 				hp.HostHeaderRewrite = "rewritten.example.com"
 			}
 			if rt.ReqHeaders {
-				hp.RequestHeaders.Set = map[string]string{"X-From-Frp": "configured-value", "X-Resp-Extra": "overridden"}
+				hp.RequestHeaders.Set = map[string]string{"X-From-Frp": "configured-value", "x-resp-extra": "overridden"} // the second key is deliberately not in canonical case
 			}
 		}
 		if rt.RespHeaders {
